@@ -96,6 +96,15 @@ func shapes() []*shape {
 			world.Item{Kind: "delete", Target: 2, Date: 15, Signer: 1},
 			world.Item{Kind: "claim", Claim: "set", PN: 2, Attr: "title", Val: 2, Date: 20, Signer: 1},
 			world.Item{Kind: "claim", Claim: "add", PN: 2, Attr: "tag", Val: 1, Date: 12, Signer: 1}),
+		// the file's time (5) decides p2's place in the time-sorted permanode lists once the file is known;
+		// before that its claim date (30) does: the order of p1 and p2 flips when the file arrives after the claim
+		mk("content-time", []string{"t"},
+			world.Item{Kind: "key", Signer: 1},
+			world.Item{Kind: "permanode", Signer: 1, Data: "p1"},
+			world.Item{Kind: "claim", Claim: "set", PN: 2, Attr: "title", Val: 1, Date: 20, Signer: 1},
+			world.Item{Kind: "permanode", Signer: 1, Data: "p2"},
+			world.Item{Kind: "file", Name: "old.txt", Date: 5},
+			world.Item{Kind: "claim", Claim: "set", PN: 4, Attr: "camliContent", ValRef: 5, Date: 30, Signer: 1}),
 		mk("delpn-attrs", []string{"a", "b"},
 			world.Item{Kind: "key", Signer: 1},
 			world.Item{Kind: "permanode", Signer: 1, Data: "p"},
